@@ -16,6 +16,49 @@
 
 namespace nmtools::array
 {
+#ifdef NMTOOLS_VERIF
+    namespace verif_detail
+    {
+        // report every packed index against the extent of its axis (NMTOOLS_VERIF only)
+        template <typename indices_t, typename shape_t>
+        constexpr void check_indices([[maybe_unused]] const indices_t& indices, [[maybe_unused]] const shape_t& shape)
+        {
+            if (__builtin_is_constant_evaluated()) return;
+            if (!::nmtools::verif::on_bounds) return;
+            if constexpr (meta::is_index_array_v<indices_t> && meta::is_index_array_v<shape_t>) {
+                auto n_idx = (long long)len(indices);
+                auto n_shp = (long long)len(shape);
+                if (n_idx != n_shp) {
+                    ::nmtools::verif::on_bounds(5,n_idx,n_idx == n_shp ? n_idx+1 : -n_shp);
+                    return;
+                }
+                if constexpr (meta::is_tuple_v<indices_t> || meta::is_tuple_v<shape_t>
+                    || meta::is_constant_index_array_v<indices_t> || meta::is_constant_index_array_v<shape_t>)
+                {
+                    constexpr auto N = meta::len_v<indices_t> > 0 ? meta::len_v<indices_t> : meta::len_v<shape_t>;
+                    meta::template_for<N>([&](auto i){
+                        ::nmtools::verif::on_bounds(5,(long long)at(indices,i),(long long)at(shape,i));
+                    });
+                } else {
+                    for (nm_size_t i=0; i<(nm_size_t)n_idx; i++) {
+                        ::nmtools::verif::on_bounds(5,(long long)at(indices,i),(long long)at(shape,i));
+                    }
+                }
+            }
+        }
+
+        template <typename buffer_t, typename offset_t>
+        constexpr void check_buffer([[maybe_unused]] const buffer_t& buffer, [[maybe_unused]] const offset_t& offset)
+        {
+            if (__builtin_is_constant_evaluated()) return;
+            if (!::nmtools::verif::on_bounds) return;
+            if constexpr (meta::has_size_v<buffer_t> || meta::is_fixed_size_v<buffer_t>) {
+                ::nmtools::verif::on_bounds(6,(long long)offset,(long long)len(buffer));
+            }
+        }
+    } // namespace verif_detail
+#endif // NMTOOLS_VERIF
+
     template <typename shape_t, typename strides_t>
     struct row_major_offset_t
     {
@@ -312,6 +355,9 @@ namespace nmtools::array
         constexpr decltype(auto) offset(const size_types&...indices) const
         {
             auto indices_ = index::pack_indices(indices...);
+            #ifdef NMTOOLS_VERIF
+            verif_detail::check_indices(indices_,self()->shape_);
+            #endif
             auto offset   = self()->offset_(indices_);
             return offset;
         }
@@ -319,12 +365,18 @@ namespace nmtools::array
         template <typename...size_types>
         constexpr decltype(auto) operator()(const size_types&...indices)
         {
+            #ifdef NMTOOLS_VERIF
+            verif_detail::check_buffer(self()->data_,offset(indices...));
+            #endif
             return nmtools::at(self()->data_,offset(indices...));
         } // operator()
 
         template <typename...size_types>
         constexpr decltype(auto) operator()(const size_types&...indices) const
         {
+            #ifdef NMTOOLS_VERIF
+            verif_detail::check_buffer(self()->data_,offset(indices...));
+            #endif
             return nmtools::at(self()->data_,offset(indices...));
         } // operator()
     }; // base_ndarray_t
